@@ -4,6 +4,7 @@ from __future__ import annotations
 import copy
 
 import common as C
+import re_probes as RP
 import fault_probes as FP
 import engine_common as E
 import engine_extract
@@ -209,7 +210,7 @@ def _probe_c08(sc, o):
     return bad
 
 
-PROBE_JUDGES = [FP.ends_usable, _probe_c08]
+PROBE_JUDGES = [FP.ends_usable, _probe_c08, FP.every_run_closed_once]
 
 
 def run(ctx, model=True):
@@ -219,6 +220,8 @@ def run(ctx, model=True):
     extra = _ENUM if (ctx.tier == "thorough" or ctx.deep) else ctx.rng.sample(_ENUM, 50)
     res = E.run_property(ctx, "C08", oracle, gen=gen, quick=60, thorough=2000, model=model, extra_scenarios=extra)
     FP.run_probes(ctx, res, PROBE_JUDGES, ["pause-hook", "teardown-request"], 10, 150)
+    FP.run_probes(ctx, res, [FP.ends_usable, FP.every_run_closed_once], ["close"], 15, 300)
+    RP.add_to(res, ["second-call"])
     return res
 
 
@@ -227,6 +230,9 @@ def run_impl_only(ctx):
 
 
 def replay(ctx, data):
+    r = RP.replay(data)
+    if r is not None:
+        return r
     if FP.is_probe(data):
         return FP.replay_probe(ctx, data, PROBE_JUDGES)
     return E.replay_property(ctx, data, oracle)
